@@ -4,6 +4,7 @@ import CqlVerif.Model.Lexer
 import CqlVerif.Lemmas.Grammar
 import CqlVerif.Lemmas.GrammarStmt
 import CqlVerif.Lemmas.GrammarUpdate
+import CqlVerif.Lemmas.GrammarBatch
 /-!
 # C06 — The idempotency classifier is sound, case/whitespace-stable and total
 
@@ -173,6 +174,34 @@ example :
     (classify (lexOf (upd [102] (.col { text := [120] } .nil)).render) 80).idem = true ∧
     (upd [110, 111, 119] .nil).ops.nonIdem = true ∧
     (classify (lexOf (upd [110, 111, 119] .nil).render) 80).idem = false := by
+  decide +kernel
+
+open CqlVerif.Ast in
+/-- **batch_grammar_sound** — every child of a batch: for every `BEGIN BATCH insert [;] insert [;] … APPLY BATCH <anything>`
+with any number of INSERT children (each as in `insert_grammar_sound`, followed by any tokens that end no statement -
+IF NOT EXISTS, USING … - and optionally a `;`), scanned from the start of the input, with any fuel: if the verdict is
+"idempotent" then no child inserts a value that contains a call of `now()` / `uuid()` at any depth.  (A child behind
+an `IF` is answered "not idempotent" by the scan that `scanForIf_run` follows; the hand-over from one child to the
+next - the token that ended the scan is the next child's first token, unless it was the `;` - is part of the proof.) -/
+theorem batch_grammar_sound (children : List (Insert × Bool)) (rest : List Tok)
+    (hall : ∀ c ∈ children, c.1.valuesKw.equal "values" = true ∧ ∀ x ∈ c.1.tail, isDMLTerminator x.kind = false)
+    (L : Lexer) (fuel : Nat) (hA : At L 0 (renderBatch children rest)) (hi : (classify L fuel).idem = true) :
+    childrenNonIdem children = false :=
+  batch_sound children rest hall L fuel hA hi
+
+open CqlVerif.Ast in
+/-- non-vacuity: `BEGIN BATCH INSERT INTO t (a) VALUES (1) USING TTL 5; INSERT INTO ks.t (a) values (f()) APPLY BATCH`
+meets the hypotheses (verdict "idempotent"); with `uuid()` for `f()` in the second child the verdict is "not idempotent" -/
+example :
+    let child (ks : Option Ident) (kw : List Nat) (v : Term) (tail : List Tok) : Insert :=
+      { ks, table := { text := [116] }, cols := [{ text := [97] }], valuesKw := { text := kw }, vals := .cons v .nil, tail }
+    let batch (fn : List Nat) : List (Insert × Bool) :=
+      [(child none [86, 65, 76, 85, 69, 83] .int [k tkUsing, idt { text := [116, 116, 108] }, k tkInteger], true),
+       (child (some { text := [107, 115] }) [118, 97, 108, 117, 101, 115] (.call none { text := fn } .nil) [], false)]
+    (∀ c ∈ batch [102], c.1.valuesKw.equal "values" = true ∧ ∀ x ∈ c.1.tail, isDMLTerminator x.kind = false) ∧
+    (classify (lexOf (renderBatch (batch [102]) [])) 120).idem = true ∧
+    childrenNonIdem (batch [117, 117, 105, 100]) = true ∧
+    (classify (lexOf (renderBatch (batch [117, 117, 105, 100]) [])) 120).idem = false := by
   decide +kernel
 
 end CqlVerif.C06
